@@ -53,7 +53,25 @@ C == Cases[cid]
 Def(q, d) == Cases[q].defs[d]
 Tab(q, c, tt) == LET row == Cases[q].table[c] IN IF tt + 1 <= Len(row) THEN row[tt + 1] ELSE row[Len(row)]
 AllTrue(q, cs, tt) == \A i \in 1..Len(cs) : Tab(q, cs[i], tt)
-GuardsOK(q, d, tt) == AllTrue(q, Def(q, d).pre, tt) /\ AllTrue(q, Def(q, d).inv, tt)
+(* Guards.  A guard condition yields a truth value or RAISES a rejection (rtable: condition name -> row of  *)
+(* booleans "raises at step t"; absent names never raise).  The conditions of a list are evaluated in    *)
+(* order: the first one that raises rejects the simulation, the first false one is a guard violation      *)
+(* (which rejects, or is raised to the caller when raiseGuardViolations is set).                             *)
+RTab(q, c, tt) == /\ c \in DOMAIN Cases[q].rtable
+                  /\ LET row == Cases[q].rtable[c] IN IF tt + 1 <= Len(row) THEN row[tt + 1] ELSE row[Len(row)]
+RECURSIVE ScanG(_, _, _, _)
+ScanG(q, cs, i, tt) == IF i > Len(cs) THEN "ok"
+                       ELSE IF RTab(q, cs[i], tt) THEN "rej"
+                       ELSE IF ~Tab(q, cs[i], tt) THEN "viol"
+                       ELSE ScanG(q, cs, i + 1, tt)
+\* the signal of checking the invariants of behaviour definition d / all its guards at a start / a scenario's
+InvSigOf(q, d, tt) == LET v == ScanG(q, Def(q, d).inv, 1, tt) IN
+                      IF v = "rej" THEN "reject" ELSE IF v = "viol" THEN "guardinv" ELSE "ok"
+BehGuardSig(q, d, tt) == LET p == ScanG(q, Def(q, d).pre, 1, tt) IN
+                         IF p = "rej" THEN "reject" ELSE IF p = "viol" THEN "guardpre" ELSE InvSigOf(q, d, tt)
+ScenPreSig(q, s, tt) == LET p == ScanG(q, Cases[q].sdefs[s].pre, 1, tt) IN
+                        IF p = "rej" THEN "reject" ELSE IF p = "viol" THEN "guardpre" ELSE "ok"
+GuardsOK(q, d, tt) == BehGuardSig(q, d, tt) = "ok"
 
 \* n units reached after `el` elapsed steps?  seconds are converted with the time step
 LimitReached(q, el, n, unit) ==
@@ -99,15 +117,15 @@ ObjCor(q, d, own) == IF d = 0 THEN Sig(NewCor(<<>>), "done")
 \* index of the nearest behaviour frame at or below position p (0 if none)
 RECURSIVE NearestBeh(_, _)
 NearestBeh(st, p) == IF p = 0 THEN 0 ELSE IF st[p].k = "beh" THEN p ELSE NearestBeh(st, p - 1)
-InvOK(q, st, p, tt) == LET b == NearestBeh(st, p) IN
-                         b = 0 \/ AllTrue(q, Def(q, st[b].d).inv, tt)
+InvSig(q, st, p, tt) == LET b == NearestBeh(st, p) IN IF b = 0 THEN "ok" ELSE InvSigOf(q, st[b].d, tt)
+InvOK(q, st, p, tt) == InvSig(q, st, p, tt) = "ok"
 
 \* start sub-behaviour d on top of c: preconditions then invariants, else rejection
 StartBeh(q, c, d, tt) ==
-  IF GuardsOK(q, d, tt) THEN Push(Push(c, FBeh(d)), FSeq(Def(q, d).body)) ELSE Sig(c, IF AllTrue(q, Def(q, d).pre, tt) THEN "guardinv" ELSE "guardpre")
+  IF GuardsOK(q, d, tt) THEN Push(Push(c, FBeh(d)), FSeq(Def(q, d).body)) ELSE Sig(c, BehGuardSig(q, d, tt))
 
 \* the invariant check the parent performs after a `do`-like statement returns
-AfterInvoke(q, c, tt) == IF InvOK(q, c.st, Len(c.st), tt) THEN c ELSE Sig(c, "guardinv")
+AfterInvoke(q, c, tt) == IF InvOK(q, c.st, Len(c.st), tt) THEN c ELSE Sig(c, InvSig(q, c.st, Len(c.st), tt))
 
 \* ---- try/interrupt: block selection (clause order 1..n; the latest enabled-or-running wins)
 Running(f, i) == f.act = i \/ f.saved[i] # <<>>
@@ -120,6 +138,8 @@ BlockBody(f, b) == IF b = 0 THEN f.body ELSE f.hs[b][2]
 
 \* enabled items of a choose/shuffle: <<d, w>> whose guards hold now, in declaration order
 Enabled(q, items, tt) == SelectSeq(items, LAMBDA it : GuardsOK(q, it[1], tt))
+\* (the guards of ALL the items are evaluated; a rejection raised by one of them rejects the simulation)
+ChooseRaises(q, items, tt) == \E i \in 1..Len(items) : BehGuardSig(q, items[i][1], tt) = "reject"
 RECURSIVE SumW(_)
 SumW(items) == IF items = <<>> THEN 0 ELSE Head(items)[2] + SumW(Tail(items))
 
@@ -142,15 +162,15 @@ Walk(q, c, p, tt) ==
   IF c.sig # "run" THEN c
   ELSE IF p > Len(c.st) THEN
        (IF Top(c).k \in {"idle", "par"} THEN c
-        ELSE IF InvOK(q, c.st, Len(c.st), tt) THEN c ELSE Sig(c, "guardinv"))
+        ELSE IF InvOK(q, c.st, Len(c.st), tt) THEN c ELSE Sig(c, InvSig(q, c.st, Len(c.st), tt)))
   ELSE LET f == c.st[p] IN
        IF f.k = "mod" THEN
-          IF CheckHere(q, c, p) /\ ~InvOK(q, c.st, p, tt) THEN Sig(c, "guardinv")
+          IF CheckHere(q, c, p) /\ ~InvOK(q, c.st, p, tt) THEN Sig(c, InvSig(q, c.st, p, tt))
           ELSE IF (IF f.m = "for" THEN LimitReached(q, tt - f.start, f.n, f.u) ELSE Tab(q, f.c, tt))
                THEN AfterInvoke(q, [c EXCEPT !.st = SubSeq(c.st, 1, p - 1)], tt)   \* abort: sub-behaviours above are stopped
                ELSE Walk(q, c, p + 1, tt)
        ELSE IF f.k = "try" THEN
-          IF (CheckHere(q, c, p) \/ Select(q, f, tt) # f.act) /\ ~InvOK(q, c.st, p, tt) THEN Sig(c, "guardinv")
+          IF (CheckHere(q, c, p) \/ Select(q, f, tt) # f.act) /\ ~InvOK(q, c.st, p, tt) THEN Sig(c, InvSig(q, c.st, p, tt))
           ELSE LET b == Select(q, f, tt) IN
                IF b = f.act THEN Walk(q, c, p + 1, tt)
                ELSE \* pre-empt: save the running block's continuation, switch to block b
@@ -237,14 +257,14 @@ StartSubsFrom(q, c, ss, i, insts, tt) ==
   IF i > Len(ss) THEN Push([c EXCEPT !.kids = c.kids \o insts, !.nk = c.nk + Len(insts)],
                            FPar([j \in 1..Len(insts) |-> insts[j].key]))
   ELSE LET d == Sdef(q, ss[i]) IN
-       IF ~AllTrue(q, d.pre, tt) THEN Sig(c, "guardpre")
+       IF ScenPreSig(q, ss[i], tt) # "ok" THEN Sig(c, ScenPreSig(q, ss[i], tt))
        ELSE LET k == Len(d.objs)
                 c1 == [c EXCEPT !.out = c.out \o [j \in 1..k |-> <<"create", c.n + j>>], !.n = c.n + k,
                             !.new = c.new \o [j \in 1..k |-> <<d.objs[j], c.n + 1>>]]
                 bad == {j \in 1..k : d.objs[j] # 0 /\ ~GuardsOK(q, d.objs[j], tt)}
             IN IF bad # {}
                THEN LET j == CHOOSE x \in bad : \A y \in bad : x <= y IN
-                    Sig(c1, IF AllTrue(q, Def(q, d.objs[j]).pre, tt) THEN "guardinv" ELSE "guardpre")
+                    Sig(c1, BehGuardSig(q, d.objs[j], tt))
                ELSE StartSubsFrom(q, c1, ss, i + 1,
                                   Append(insts, [NewInst(q, ss[i]) EXCEPT !.id = IF k > 0 THEN c.n + 1 ELSE 0,
                                                                            !.key = c.nk + i]), tt)
@@ -252,7 +272,8 @@ StartSubs(q, c, ss, tt) == StartSubsFrom(q, c, ss, 1, <<>>, tt)
 
 \* ---- random picks
 \* enabled scenario items of a choose/shuffle in a compose block: <<s, w>> whose preconditions hold now
-SEnabled(q, items, tt) == SelectSeq(items, LAMBDA it : AllTrue(q, Sdef(q, it[1]).pre, tt))
+SEnabled(q, items, tt) == SelectSeq(items, LAMBDA it : ScenPreSig(q, it[1], tt) = "ok")
+SChooseRaises(q, items, tt) == \E i \in 1..Len(items) : ScenPreSig(q, items[i][1], tt) = "reject"
 \* pick kinds: "rand" (uniform integer lo..hi), "disc" (run-time Discrete({v: w, ...}): opts = <<label, items>>),
 \* "items" / "sitems" (choose or shuffle over behaviours / scenarios: opts = the enabled <<d, w>>).  Weights are
 \* integers here; a case may print them divided by a common power of two (field wscale): only ratios matter.
@@ -366,13 +387,13 @@ Micro(q, c, tt) ==
                        IN IF hit THEN AfterInvoke(q, c1, tt) ELSE StartSubs(q, Push(c1, m), s[2], tt)
                   [] s[1] = "choose" ->
                        LET en == Enabled(q, s[2], tt) IN
-                       IF en = <<>> THEN Sig(c1, "reject")
+                       IF en = <<>> \/ ChooseRaises(q, s[2], tt) THEN Sig(c1, "reject")
                        ELSE IF Len(en) = 1 THEN StartBeh(q, c1, en[1][1], tt)
                        ELSE AskPick(q, c1, en, "items", tt)
                   [] s[1] = "shuffle" -> Push(c1, FShuf(s[2], FALSE))
                   [] s[1] = "schoose" ->     \* `do choose` over scenarios, in a compose block
                        LET en == SEnabled(q, s[2], tt) IN
-                       IF en = <<>> THEN Sig(c1, "reject")
+                       IF en = <<>> \/ SChooseRaises(q, s[2], tt) THEN Sig(c1, "reject")
                        ELSE IF Len(en) = 1 THEN StartSubs(q, c1, <<en[1][1]>>, tt)
                        ELSE AskPick(q, c1, en, "sitems", tt)
                   [] s[1] = "sshuffle" -> Push(c1, FShuf(s[2], TRUE))
@@ -395,7 +416,7 @@ Micro(q, c, tt) ==
   [] f.k = "shuf" ->
         IF f.items = <<>> THEN AfterInvoke(q, Pop(c), tt)
         ELSE LET en == IF f.sk THEN SEnabled(q, f.items, tt) ELSE Enabled(q, f.items, tt) IN
-             IF en = <<>> THEN Sig(c, "reject")
+             IF en = <<>> \/ (IF f.sk THEN SChooseRaises(q, f.items, tt) ELSE ChooseRaises(q, f.items, tt)) THEN Sig(c, "reject")
              ELSE IF Len(en) = 1
                   THEN LET c1 == SetTop(c, [f EXCEPT !.items = SelectSeq(f.items, LAMBDA it : it # en[1])]) IN
                        IF f.sk THEN StartSubs(q, c1, <<en[1][1]>>, tt) ELSE StartBeh(q, c1, en[1][1], tt)
@@ -457,15 +478,15 @@ EndRej(kind) == /\ ending' = <<"rejected", t, kind>> /\ phase' = "end"
 Setup ==
   /\ phase = "setup"
   /\ LET creates == [i \in 1..NA |-> <<"create", i>>]
-         topbad == ~AllTrue(cid, Sdef(cid, C.top).pre, 0)
+         topbad == ScenPreSig(cid, C.top, 0) # "ok"
          bad == \E a \in Agents : ~GuardsOK(cid, C.agents[a], 0)
      IN /\ ev' = IF topbad \/ bad THEN creates ELSE Append(creates, <<"read", 0>>)
         /\ beh' = [a \in 1..NA |-> ObjCor(cid, C.agents[a], 0)]
         /\ top' = NewInst(cid, C.top)
-        /\ IF topbad THEN EndRej("guardpre") /\ UNCHANGED ai
+        /\ IF topbad THEN EndRej(ScenPreSig(cid, C.top, 0)) /\ UNCHANGED ai
            ELSE IF bad
            THEN LET a == CHOOSE x \in Agents : ~GuardsOK(cid, C.agents[x], 0) /\ \A y \in Agents : y < x => GuardsOK(cid, C.agents[y], 0)
-                IN EndRej(IF AllTrue(cid, Def(cid, C.agents[a]).pre, 0) THEN "guardinv" ELSE "guardpre") /\ UNCHANGED ai
+                IN EndRej(BehGuardSig(cid, C.agents[a], 0)) /\ UNCHANGED ai
            ELSE phase' = "scenario" /\ ending' = ending /\ ai' = 0
   /\ pend' = [a \in 1..NA |-> <<>>]
   /\ UNCHANGED <<cid, t, nexec, ntraj, flag, ws, pick>>
